@@ -24,8 +24,8 @@ var (
 	latTop = lat{kind: 3}
 )
 
-func latInt(i int64) lat  { return lat{kind: 1, i: i} }
-func latBool(b bool) lat  { return lat{kind: 2, b: b} }
+func latInt(i int64) lat    { return lat{kind: 1, i: i} }
+func latBool(b bool) lat    { return lat{kind: 2, b: b} }
 func (a lat) eq(b lat) bool { return a == b }
 
 func join(a, b lat) lat {
